@@ -1219,7 +1219,8 @@ class Face3D(Base2DIn3D):
         tri_edge_sets = [set((rel_f[i - 1], rel_f[i]) for i in range(3))]
         faces_to_test = list(tri_mesh.faces[1:])
         # group the faces along matched edges
-        for f in faces_to_test:
+        stalled = 0  # count of faces put to the back in a row without any merging
+        for f_i, f in enumerate(faces_to_test):
             connected = False
             for tfs, fs, es in zip(tri_faces, tri_face_sets, tri_edge_sets):
                 svc = _shared_vertex_count(fs, f)
@@ -1229,16 +1230,20 @@ class Face3D(Base2DIn3D):
                     for i, v in enumerate(f):
                         fs.add(v)
                         es.add((f[i - 1], f[i]))
+                    stalled = 0
                     break
                 elif svc == 3:  # definitely a new shape
                     connected = True
             else:  # not ready to be merged; put it to the back
-                if connected:
+                # if all of the waiting faces were tried without merging, start a new shape
+                if connected or stalled > len(faces_to_test) - f_i - 1:
                     tri_faces.append([tuple(tri_verts[pt] for pt in f)])
                     tri_face_sets.append(set(f))
                     tri_edge_sets.append(set((f[i - 1], f[i]) for i in range(3)))
+                    stalled = 0
                 else:
                     faces_to_test.append(f)
+                    stalled += 1
         # create Face3Ds from the triangle groups
         final_faces = []
         for tf in tri_faces:
